@@ -67,6 +67,8 @@ def run_group(ctx, prop, lean=True, other_tiers=True):
                 obs += eng.verify(rel, qual, contract=cv, label=label)
                 if eng.exits['normal'] == 0 and not cv.get('never_returns'):
                     no_exit.append(label)
+        except engine.VacuousContract as e:
+            raise RuntimeError('contract inconsistency while verifying {}: {}'.format(fname, e))
         except engine.Unsupported as e:
             p['unsupported'].append({'function': fname, 'reason': str(e)})
             print('PROOF-DEGRADED {}: function left the supported subset ({}); decided by the bounded tier only'.format(fname, e))
